@@ -268,7 +268,8 @@ class C04(FrpProp):
     level_text = 'Theorems over the specification for ALL histories: every read during a transaction sees the pre-transaction value (sends do not change cur; sample position irrelevant); hold commits the event as next value with or without listeners and equals the last event so far; accum and collect, built exactly as the library builds them (loop + hold + snapshot), equal the left fold of the function over the whole event history with one update per input event; a cell created after its source fired takes that event. Refine_* : the engine computes the specified updates on the static fragment. Tie: spec correspondence with samples at random positions, reads from inside user functions during propagation (map_s/map_sl: a map whose function samples a cell strictly or through a Lazy, specified as the snapshot), lazies shared between cells, long histories.'
     extra_props = ["Refine"]
     tag = "c04"
-    profile = Profile(w=W(hold=12, accum=8, collect=6, snapshot=10, csink=5, hold_lazy=5, accum_lazy=4, gate=4, map_s=6, map_sl=6),
+    profile = Profile(w=W(hold=12, accum=8, collect=6, snapshot=10, csink=5, hold_lazy=5, accum_lazy=4, gate=4, map_s=6, map_sl=6,
+                            defer=3, split=3), p_post=0.2,
                       p_sample=0.7, p_def_in_txn=0.25, n_txn=(5, 20), p_listen_late=0.2, p_lazy=0.25)
 
 
